@@ -5,6 +5,7 @@ from .. import hgen
 from ..hbase import STUBS
 from ..hlib import c17 as L
 from .common import BASE_ASSUMPTIONS, ROOT, Cond, Spec
+from ..runner import innermost as U
 
 
 def build(tier):
@@ -41,7 +42,7 @@ def build(tier):
     S = aioftp.Server
     return Spec(
         pid="C17", source=src, conds=conds,
-        functions_encoded=[S.dispatcher, S.pasv.__wrapped__, S.epsv.__wrapped__, S.user, aioftp.pathio.PathIONursery.__call__, aioftp.Connection.__init__] ,
+        functions_encoded=[S.dispatcher, U(S.pasv), U(S.epsv), S.user, aioftp.pathio.PathIONursery.__call__, aioftp.Connection.__init__] ,
         bounds={
             "frame condition": f"session A executes one command (each verb of the live table + an unknown one: {verbs}) while session B rests in a symbolic state: same or different user, logged in or not, cwd in 3 places, "
                                "pending rename / restart offset / passive listener / data connection / transfer type present or not" + (" (quick: rename, offset, type, listener always present)" if q else ""),
